@@ -99,7 +99,10 @@ def rule_r1(ctx):
     for h in handover:
         hn = g.nodes[h]
         nxt = [s for (s, l) in hn.succ if l != "exc"]
-        ok = nxt and nxt[0].kind == "stmt" and isinstance(nxt[0].ast, ast.Assign) and isinstance(nxt[0].ast.value, ast.Constant) and nxt[0].ast.value.value is False
+        # (which constant clears it depends on how the flag is phrased - "may close" or "handed over"; the path exploration
+        # above decides whether the flip has the right sense)
+        ok = nxt and nxt[0].kind == "stmt" and isinstance(nxt[0].ast, ast.Assign) and isinstance(nxt[0].ast.value, ast.Constant) and isinstance(nxt[0].ast.value.value, bool) \
+            and isinstance(nxt[0].ast.targets[0], ast.Name) and nxt[0].ast.targets[0].id in flags
         if ok:
             ctx.r.ok(rid, "ownership flag cleared immediately after the hand-over", f.loc(hn.ast))
         else:
@@ -397,6 +400,7 @@ RULES = [rule_r1, rule_r2, rule_r3, rule_r4, rule_r5, rule_r6, rule_r7, rule_r8,
 from ..selftest import M, T, V  # noqa: E402
 
 selftest = [
+    M("disconnect-handler-widened", "channel.py", "        except ClientDisconnected:\n            self.logger.info(", "        except (ClientDisconnected, ConnectionError):\n            self.logger.info(", "R4"),
     M("flag-before-handover", "task.py", "                    self.channel.write_soon(app_iter)\n                    can_close_app_iter = False\n", "                    can_close_app_iter = False\n                    self.channel.write_soon(app_iter)\n", "R1"),
     M("finally-dropped", "task.py", "        finally:\n            if can_close_app_iter and hasattr(app_iter, \"close\"):\n                app_iter.close()", "        except ZeroDivisionError:\n            pass\n        if can_close_app_iter and hasattr(app_iter, \"close\"):\n            app_iter.close()", "R1"),
     M("double-close", "task.py", "                    self.channel.write_soon(app_iter)\n                    can_close_app_iter = False\n                    return", "                    self.channel.write_soon(app_iter)\n                    return", "R1"),
